@@ -224,6 +224,7 @@ type deferred struct {
 }
 
 type Frame struct {
+	loopLocks map[int]*State // lock state at loop heads (locks.go)
 	vc       *VC
 	fn       *ssa.Function
 	id       int
@@ -589,6 +590,7 @@ func (fr *Frame) step(b *ssa.BasicBlock, ins ssa.Instruction, st *State, reach s
 		}
 		v := fr.get(x.Val)
 		fr.frameCheck(b, l, st, reach, x.Pos())
+		fr.guardCheck(l, st, reach, x.Pos(), true)
 		vc.store(st, l, vc.valTerm(v))
 	case *ssa.Convert:
 		fr.convert(x, st)
@@ -731,6 +733,7 @@ func (fr *Frame) unop(b *ssa.BasicBlock, x *ssa.UnOp, st *State, reach string) {
 		if (l.Kind == locStruct || l.Kind == locBox) && len(l.Path) == 0 {
 			fr.checkNonNil(b, l.Ref, reach, x.Pos())
 		}
+		fr.guardCheck(l, st, reach, x.Pos(), false)
 		fr.bind(x, Val{S: vc.load(st, l)})
 		vc.typingFacts(st, x.Type(), fr.vals[x].S)
 	case token.NOT:
